@@ -176,7 +176,12 @@ var recognisers = []recogniser{
 	{fIntMin, []string{"rejected"}, func(c *Case, _ *ir.Value, msg string) bool {
 		return strings.Contains(msg, "Int cannot represent non 32-bit signed integer value: "+intMin) && strings.Contains(c.Query, intMin)
 	}},
-	{fExp, append([]string{"invalid-json"}, anySite...), func(c *Case, _ *ir.Value, msg string) bool {
+	{fExp, []string{"rejected", "invalid-json"}, func(c *Case, _ *ir.Value, msg string) bool {
+		// as an argument or object field the split literal is a parse error; as a list item it
+		// becomes two items, the first of which ("1e") is not a JSON number
+		if strings.Contains(msg, "not valid JSON") && !strings.Contains(msg, "bad exponent") {
+			return false
+		}
 		return anyToken(c, func(t ir.Token) bool { return t.Kind == ir.TFloat && reExpSign.MatchString(t.Text) })
 	}},
 	{fBrace, []string{"invalid-json"}, func(c *Case, _ *ir.Value, msg string) bool {
